@@ -16,6 +16,7 @@ META = dict(
     required_hits=["integer_exact", "recurrence", "conjugation", "mellin_g", "mellin_log", "cache_order", "single_complex", "polygamma"],
     max_inconclusive_frac=0.05,
 )
+META["level_text"] += " Cache histories also follow ekore's calling convention (parity-free keys without a flag); the parity flag is also passed as a NumPy bool."
 
 # tolerances (absolute, times max(1,|reference|) and the growth of the parity factor)
 TOL_EXACT = 2e-13  # closed forms in polygammas
